@@ -373,9 +373,6 @@ Section RegLemmas.
 End RegLemmas.
 
 (* ================================================================== Part 2: values, the counting cache *)
-Fixpoint nodupeq (l : list value) : Prop :=
-  match l with [] => True | x :: l' => (forall y, In y l' -> v_eq x y = false) /\ nodupeq l' end.
-
 Section Values.
   Variable cls : nat -> nat.
 
@@ -1106,3 +1103,633 @@ Section AdapterSide.
         intros [[q2 f2] i2]. cbn. intros E2. apply lspec_eqb_eq in E2. subst. exact E.
   Qed.
 End AdapterSide.
+
+(* ================================================================== Part 5: refinement of the ledger *)
+Definition u_of (kv : (spec * name) * (value * info * option nat)) : urec :=
+  let '((p, n), (c, i, f)) := kv in (p, n, c, i, f).
+Definition a_of (kv : akey * (value * info)) : arec :=
+  let '((q, p, n), (f, i)) := kv in (q, p, n, f, i).
+
+Definition refines (st : cstate) (L : ledger) : Prop :=
+  l_u L = map u_of (c_ureg st) /\ l_a L = map a_of (c_areg st) /\ l_s L = c_sreg st /\ l_h L = c_hreg st.
+
+Lemma find_u_key (U : ureg_t) p n :
+  find (u_key p n) (map u_of U)
+  = match aget pn_eqb U (p, n) with Some (c, i, f) => Some (p, n, c, i, f) | None => None end.
+Proof.
+  induction U as [|[[p' n'] [[c i] f]] U IH]; cbn; auto.
+  unfold pn_eqb. cbn [fst snd]. rewrite (Nat.eqb_sym p' p), (Nat.eqb_sym n' n).
+  destruct (Nat.eqb p p') eqn:E1; cbn; auto. destruct (Nat.eqb n n') eqn:E2; cbn; auto.
+  apply Nat.eqb_eq in E1, E2. now subst.
+Qed.
+
+Lemma filter_u_key (U : ureg_t) p n : NoDup (map fst U) ->
+  filter (fun r => negb (u_key p n r)) (map u_of U) = map u_of (adel pn_eqb U (p, n)).
+Proof.
+  intros ND. rewrite (adel_filter _ pn_eqb_eq) by auto. rewrite filter_map_comm. f_equal.
+  apply filter_ext_in'. intros [[p' n'] [[c i] f]] _. cbn. unfold pn_eqb. cbn [fst snd].
+  now rewrite (Nat.eqb_sym p' p), (Nat.eqb_sym n' n).
+Qed.
+
+Lemma a_key_of q p n kv : a_key q p n (a_of kv) = akey_eqb (q, p, n) (fst kv).
+Proof.
+  destruct kv as [[[q' p'] n'] [f i]]. cbn.
+  now rewrite (lspec_eqb_sym q' q), (Nat.eqb_sym p' p), (Nat.eqb_sym n' n).
+Qed.
+
+Lemma find_a_key (A : areg_t) q p n :
+  find (a_key q p n) (map a_of A)
+  = match aget akey_eqb A (q, p, n) with Some (f, i) => Some (q, p, n, f, i) | None => None end.
+Proof.
+  induction A as [|kv A IH]; cbn [map find aget]; auto.
+  rewrite a_key_of. destruct kv as [k [f i]]. cbn [fst].
+  destruct (akey_eqb (q, p, n) k) eqn:E; auto.
+  apply akey_eqb_eq in E. subst. reflexivity.
+Qed.
+
+Lemma filter_a_key (A : areg_t) q p n : NoDup (map fst A) ->
+  filter (fun r => negb (a_key q p n r)) (map a_of A) = map a_of (adel akey_eqb A (q, p, n)).
+Proof.
+  intros ND. rewrite (adel_filter _ akey_eqb_eq) by auto. rewrite filter_map_comm. f_equal.
+  apply filter_ext_in'. intros kv _. now rewrite a_key_of.
+Qed.
+
+Lemma map_a_key (A : areg_t) q p n f i v0 : NoDup (map fst A) -> aget akey_eqb A (q, p, n) = Some v0 ->
+  map (fun r => if a_key q p n r then (q, p, n, f, i) else r) (map a_of A)
+  = map a_of (aset akey_eqb A (q, p, n) (f, i)).
+Proof.
+  intros ND Hget. rewrite (aset_map _ akey_eqb_eq _ _ _ _ Hget ND), !map_map. apply map_ext.
+  intros kv. rewrite a_key_of. destruct (akey_eqb (q, p, n) (fst kv)); reflexivity.
+Qed.
+
+Lemma value_eqb_eq a b : value_eqb a b = true <-> a = b.
+Proof.
+  destruct a as [ia ea], b as [ib eb]. unfold value_eqb. cbn.
+  rewrite andb_true_iff, !Nat.eqb_eq. split; [intros [-> ->]; auto | intros E; inversion E; auto].
+Qed.
+Lemma value_eqb_refl a : value_eqb a a = true.
+Proof. now apply value_eqb_eq. Qed.
+Lemma onat_eqb_refl a : onat_eqb a a = true.
+Proof. destruct a; cbn; auto. apply Nat.eqb_refl. Qed.
+Lemma ovalue_eqb_refl a : ovalue_eqb a a = true.
+Proof. destruct a; cbn; auto. apply value_eqb_refl. Qed.
+Lemma regrec_eqb_refl r : regrec_eqb r r = true.
+Proof.
+  destruct r; cbn; rewrite ?Nat.eqb_refl, ?lspec_eqb_refl, ?value_eqb_refl, ?onat_eqb_refl, ?ovalue_eqb_refl; reflexivity.
+Qed.
+
+Section Refinement.
+  Variable W : world.
+  Variable hashable : value -> bool.
+  Variable cls : nat -> nat.
+  Hypothesis hash_cls : forall a b, veq a = veq b -> hashable a = hashable b.
+
+  Notation okv := (okv cls).
+  Notation cstep := (cstep W hashable).
+
+  Record inv (st : cstate) : Prop := {
+    inv_U : inv_u hashable cls (c_utils st) (c_ureg st) (c_cache st);
+    inv_A : inv_a cls (c_adapters st) (c_areg st) (c_sreg st) (c_hreg st)
+  }.
+
+  Lemma inv_init : inv cinit.
+  Proof. constructor; [apply inv_u_init | apply inv_a_init]. Qed.
+
+  Lemma refines_init : refines cinit lempty.
+  Proof. repeat split. Qed.
+
+  (* ---- utilities *)
+  (* unregistering a live key with an equal (or no) component *)
+  Lemma unreg_live st L p n oc oi of comp : inv st -> refines st L ->
+    aget pn_eqb (c_ureg st) (p, n) = Some (oc, oi, of) -> okv comp = true -> v_eq comp oc = true ->
+    exists st', ur_unregister W hashable st p n comp = (st', true)
+      /\ inv st' /\ c_ureg st' = adel pn_eqb (c_ureg st) (p, n)
+      /\ refines st' (mkL (filter (fun r => negb (u_key p n r)) (l_u L)) (l_a L) (l_s L) (l_h L)).
+  Proof.
+    intros [IU IA] [Ru [Ra [Rs Rh]]] Hget Hc Heq.
+    destruct (inv_u_unregister W hashable cls hash_cls _ _ _ p n oc oi of comp IU Hget Hc Heq)
+      as [C' [still [Hunc I']]].
+    unfold ur_unregister. rewrite Hunc. eexists. split; [reflexivity|].
+    split; [|split].
+    - constructor; cbn; auto.
+    - reflexivity.
+    - repeat split; cbn; auto. rewrite Ru. apply filter_u_key. apply (iu_keys _ _ _ _ _ IU).
+  Qed.
+
+  Lemma reg_fresh st L p n c i f : inv st -> refines st L ->
+    aget pn_eqb (c_ureg st) (p, n) = None -> okv c = true ->
+    inv (ur_register W hashable st p n c i f)
+    /\ refines (ur_register W hashable st p n c i f) (mkL (l_u L ++ [(p, n, c, i, f)]) (l_a L) (l_s L) (l_h L)).
+  Proof.
+    intros [IU IA] [Ru [Ra [Rs Rh]]] Hfresh Hc.
+    pose proof (inv_u_register W hashable cls hash_cls _ _ _ p n c i f IU Hfresh Hc) as I'.
+    cbv zeta in I'. unfold ur_register. rewrite (aset_fresh _ _ _ _ Hfresh).
+    split.
+    - constructor; cbn; auto.
+    - repeat split; cbn; auto. rewrite Ru, map_app. reflexivity.
+  Qed.
+
+  Definition step_claim (st : cstate) (L : ledger) (o : cop) : Prop :=
+    let x := cstep st o in
+    let y := spec_step L o in
+    inv (st_of x) /\ refines (st_of x) (o_ledger y) /\ ret_of x = o_ret y
+    /\ (benign L o = true -> events_ok (evs_of x) y = true).
+
+  Ltac simp_out := cbn [st_of ret_of evs_of o_ledger o_ret o_removed o_added fst snd].
+
+  Ltac unchanged I R :=
+    cbn; split; [exact I | split; [exact R | split; [reflexivity | intros _; reflexivity]]].
+
+  Lemma step_unregU st L c p n : inv st -> refines st L -> ok_ov cls c = true ->
+    step_claim st L (UnregUtility c p n).
+  Proof.
+    intros I R Hc. unfold step_claim. cbn [cstep spec_step]. unfold unregisterUtility.
+    assert (R0 := R). destruct R as [Ru R']. rewrite Ru, find_u_key.
+    destruct (aget pn_eqb (c_ureg st) (p, n)) as [[[oc oi] of]|] eqn:Hget.
+    2:{ unchanged I R0. }
+    assert (Hoc : okv oc = true).
+    { pose proof (iu_ok _ _ _ _ _ (inv_U _ I)) as HU. unfold uok in HU. rewrite Forall_forall in HU.
+      apply (HU _ (aget_In _ pn_eqb_eq _ _ _ Hget)). }
+    assert (Hgo : forall comp, okv comp = true -> v_eq comp oc = true ->
+              let x := match ur_unregister W hashable st p n comp with
+                       | (st', true) => (st', RBool true, [Unregistered (RU p n comp oi of)])
+                       | (st', false) => (st', RTypeError, [])
+                       end in
+              let y := (mkL (filter (fun r => negb (u_key p n r)) (map u_of (c_ureg st))) (l_a L) (l_s L) (l_h L),
+                        RBool true, [RU p n oc oi of], @nil regrec) in
+              inv (st_of x) /\ refines (st_of x) (o_ledger y) /\ ret_of x = o_ret y
+              /\ (benign L (UnregUtility c p n) = true -> events_ok (evs_of x) y = true)).
+    { intros comp Hcomp Heq.
+      destruct (unreg_live st L p n oc oi of comp I R0 Hget Hcomp Heq) as [st' [E [I' [_ R2]]]].
+      rewrite E. cbn. rewrite Ru in R2.
+      split; [exact I' | split; [exact R2 | split; [reflexivity|]]].
+      intros _. unfold events_ok. cbn. rewrite !Nat.eqb_refl, Heq, onat_eqb_refl. reflexivity. }
+    destruct c as [c'|].
+    - cbn in Hc. destruct (v_eq c' oc) eqn:Ev; cbn [negb].
+      + exact (Hgo c' Hc Ev).
+      + unchanged I R0.
+    - exact (Hgo oc Hoc (v_eq_refl oc)).
+  Qed.
+
+  Lemma step_regU st L c p n i f : inv st -> refines st L -> okv c = true ->
+    step_claim st L (RegUtility c p n i f).
+  Proof.
+    intros I R Hc. unfold step_claim. cbn [cstep spec_step]. unfold registerUtility.
+    assert (R0 := R). destruct R as [Ru R']. rewrite Ru, find_u_key.
+    destruct (aget pn_eqb (c_ureg st) (p, n)) as [[[oc oi] of]|] eqn:Hget.
+    - destruct (v_eq oc c && Nat.eqb oi i) eqn:Esame.
+      + unchanged I R0.
+      + assert (Hoc : okv oc = true).
+        { pose proof (iu_ok _ _ _ _ _ (inv_U _ I)) as HU. unfold uok in HU. rewrite Forall_forall in HU.
+          apply (HU _ (aget_In _ pn_eqb_eq _ _ _ Hget)). }
+        unfold unregisterUtility. rewrite Hget, v_eq_refl. cbn [negb].
+        destruct (unreg_live st L p n oc oi of oc I R0 Hget Hoc (v_eq_refl oc)) as [st1 [E [I1 [EU R1]]]].
+        rewrite E.
+        assert (Hfresh : aget pn_eqb (c_ureg st1) (p, n) = None).
+        { rewrite EU, (aget_adel _ pn_eqb_eq) by apply (iu_keys _ _ _ _ _ (inv_U _ I)).
+          now rewrite (eqb_refl _ pn_eqb_eq). }
+        destruct (reg_fresh st1 _ p n c i f I1 R1 Hfresh Hc) as [I2 R2].
+        cbn in R2. rewrite Ru in R2. cbn.
+        split; [exact I2 | split; [exact R2 | split; [reflexivity|]]].
+        intros _. unfold events_ok. cbn.
+        rewrite !Nat.eqb_refl, v_eq_refl, !onat_eqb_refl, value_eqb_refl. reflexivity.
+    - destruct (reg_fresh st L p n c i f I R0 Hget Hc) as [I2 R2]. rewrite Ru in R2.
+      cbn. split; [exact I2 | split; [exact R2 | split; [reflexivity|]]].
+      intros _. unfold events_ok. cbn. rewrite !Nat.eqb_refl, onat_eqb_refl, value_eqb_refl. reflexivity.
+  Qed.
+
+  (* ---- adapters, subscription adapters, handlers *)
+  Lemma inv_set_adapters st a A S H : inv st -> inv_a cls a A S H -> inv (set_adapters st a A S H).
+  Proof. intros [IU IA] I'. constructor; cbn; auto. Qed.
+
+  Lemma nonempty_false {A} (l : list A) : l = [] -> nonempty l = false.
+  Proof. now intros ->. Qed.
+  Lemma nonempty_true {A} (l : list A) : l <> [] -> nonempty l = true.
+  Proof. destruct l; [congruence | reflexivity]. Qed.
+
+  Lemma step_regA st L f req p n i : inv st -> refines st L -> okv f = true ->
+    step_claim st L (RegAdapter f req p n i).
+  Proof.
+    intros I R Hf. unfold step_claim. cbn [cstep spec_step]. unfold registerAdapter, conv_req, benign.
+    cbn [multi_removal adapter_overwrite negb andb].
+    assert (R0 := R). destruct R as [Ru [Ra [Rs Rh]]]. set (q := map conv req).
+    rewrite Ra, find_a_key.
+    pose proof (inv_a_regA W cls _ _ _ _ f q p n i (inv_A _ I) Hf) as IA'.
+    pose proof (ia_keys _ _ _ _ _ (inv_A _ I)) as ND.
+    destruct (aget akey_eqb (c_areg st) (q, p, n)) as [[of oi]|] eqn:Hget.
+    - destruct (value_eqb of f && Nat.eqb oi i) eqn:Esame.
+      + apply andb_true_iff in Esame. destruct Esame as [E1 E2].
+        apply value_eqb_eq in E1. apply Nat.eqb_eq in E2. subst of oi. cbn.
+        split; [now apply inv_set_adapters | split; [|split; [reflexivity | discriminate]]].
+        repeat split; cbn; auto. now rewrite Ra, (aset_same _ _ _ _ Hget).
+      + cbn. split; [now apply inv_set_adapters | split; [|split; [reflexivity | discriminate]]].
+        repeat split; cbn; auto. now apply map_a_key with (v0 := (of, oi)).
+    - cbn. split; [now apply inv_set_adapters | split; [|split; [reflexivity|]]].
+      + repeat split; cbn; auto. rewrite (aset_fresh _ _ _ _ Hget), map_app. reflexivity.
+      + intros _. unfold events_ok. cbn.
+        rewrite lspec_eqb_refl, !Nat.eqb_refl, value_eqb_refl. reflexivity.
+  Qed.
+
+  Lemma step_unregA st L f req p n : inv st -> refines st L -> ok_ov cls f = true ->
+    step_claim st L (UnregAdapter f req p n).
+  Proof.
+    intros I R Hf. unfold step_claim. cbn [cstep spec_step]. unfold unregisterAdapter, conv_req.
+    assert (R0 := R). destruct R as [Ru [Ra [Rs Rh]]]. set (q := map conv req).
+    rewrite Ra, find_a_key.
+    pose proof (ia_keys _ _ _ _ _ (inv_A _ I)) as ND.
+    destruct (aget akey_eqb (c_areg st) (q, p, n)) as [[of oi]|] eqn:Hget.
+    2:{ unchanged I R0. }
+    assert (Hcond : match f with Some f' => negb (v_eq f' of) | None => false end = negb (f_sel f of)).
+    { destruct f as [f'|]; cbn; auto. now rewrite v_eq_sym. }
+    rewrite Hcond. destruct (f_sel f of); cbn [negb].
+    - cbn. split; [apply inv_set_adapters; auto; apply inv_a_unregA; apply (inv_A _ I)
+                  | split; [|split; [reflexivity|]]].
+      + repeat split; cbn; auto. now apply filter_a_key.
+      + intros _. unfold events_ok. cbn.
+        rewrite lspec_eqb_refl, !Nat.eqb_refl, value_eqb_refl. reflexivity.
+    - unchanged I R0.
+  Qed.
+
+  Lemma step_regS st L f req p n i : inv st -> refines st L -> okv f = true ->
+    step_claim st L (RegSub f req p n i).
+  Proof.
+    intros I R Hf. unfold step_claim. cbn [cstep spec_step]. unfold registerSub, conv_req.
+    assert (R0 := R). destruct R as [Ru [Ra [Rs Rh]]].
+    destruct (negb (Nat.eqb n 0)); [unchanged I R0|].
+    cbn. split; [apply inv_set_adapters; auto; apply inv_a_regS; auto; apply (inv_A _ I)
+                | split; [|split; [reflexivity|]]].
+    - repeat split; cbn; auto. now rewrite Rs.
+    - intros _. unfold events_ok. cbn.
+      rewrite lspec_eqb_refl, !Nat.eqb_refl, value_eqb_refl. reflexivity.
+  Qed.
+
+  Lemma step_regH st L f req n i : inv st -> refines st L -> okv f = true ->
+    step_claim st L (RegHandler f req n i).
+  Proof.
+    intros I R Hf. unfold step_claim. cbn [cstep spec_step]. unfold registerHandler, conv_req.
+    assert (R0 := R). destruct R as [Ru [Ra [Rs Rh]]].
+    destruct (negb (Nat.eqb n 0)); [unchanged I R0|].
+    cbn. split; [apply inv_set_adapters; auto; apply inv_a_regH; auto; apply (inv_A _ I)
+                | split; [|split; [reflexivity|]]].
+    - repeat split; cbn; auto. now rewrite Rh.
+    - intros _. unfold events_ok. cbn.
+      rewrite lspec_eqb_refl, !Nat.eqb_refl, value_eqb_refl. reflexivity.
+  Qed.
+
+  Lemma single_of_short {A} (l : list A) : l <> [] -> Nat.ltb 1 (length l) = false -> exists x, l = [x].
+  Proof.
+    destruct l as [|x [|y l]]; [congruence | eauto |].
+    intros _ H. apply Nat.ltb_ge in H. cbn in H. lia.
+  Qed.
+
+  Lemma step_unregS st L f req p n : inv st -> refines st L ->
+    step_claim st L (UnregSub f req p n).
+  Proof.
+    intros I R. unfold step_claim, benign. cbn [cstep spec_step multi_removal adapter_overwrite negb andb].
+    unfold unregisterSub, conv_req.
+    assert (R0 := R). destruct R as [Ru [Ra [Rs Rh]]].
+    destruct (negb (Nat.eqb n 0)); [unchanged I R0|].
+    set (q := map conv req). rewrite Rs.
+    change (fun e => negb (sub_match f q p e)) with (fun r => negb (s_sel f q p r)).
+    match goal with |- context [Nat.eqb (length ?a) (length ?b)] => destruct (Nat.eqb (length a) (length b)) eqn:El end.
+    - apply Nat.eqb_eq in El.
+      assert (Hnone : @filter srec (s_sel f q p) (c_sreg st) = []) by (apply (filter_neg_all (s_sel f q p)); exact El).
+      assert (Hall : @filter srec (fun r => negb (s_sel f q p r)) (c_sreg st) = c_sreg st) by (apply filter_length_eq; exact El).
+      rewrite Hnone, Hall. simp_out.
+      split; [exact I | split; [|split; [reflexivity | intros _; reflexivity]]].
+      repeat split; cbn; auto.
+    - apply Nat.eqb_neq in El.
+      assert (Hsome : @filter srec (s_sel f q p) (c_sreg st) <> []) by (apply (filter_neg_some (s_sel f q p)); exact El).
+      rewrite (nonempty_true _ Hsome). simp_out.
+      split; [apply inv_set_adapters; auto; apply inv_a_unregS; apply (inv_A _ I)
+             | split; [|split; [reflexivity|]]].
+      + repeat split; cbn; auto.
+      + rewrite map_length, andb_true_r. intros Hb. apply negb_true_iff in Hb.
+        destruct (single_of_short _ Hsome Hb) as [e He].
+        unfold events_ok. simp_out. rewrite He.
+        assert (Hin : In e (filter (s_sel f q p) (c_sreg st))) by (rewrite He; left; auto).
+        apply filter_In in Hin. destruct Hin as [_ Hsel].
+        destruct e as [[[q' p'] f'] i']. cbn in Hsel |- *.
+        rewrite (lspec_eqb_sym q q'), (Nat.eqb_sym p p'), Hsel. reflexivity.
+  Qed.
+
+  Lemma step_unregH st L f req n : inv st -> refines st L ->
+    step_claim st L (UnregHandler f req n).
+  Proof.
+    intros I R. unfold step_claim, benign. cbn [cstep spec_step multi_removal adapter_overwrite negb andb].
+    unfold unregisterHandler, conv_req.
+    assert (R0 := R). destruct R as [Ru [Ra [Rs Rh]]].
+    destruct (negb (Nat.eqb n 0)); [unchanged I R0|].
+    set (q := map conv req). rewrite Rh.
+    change (fun e => negb (hnd_match f q e)) with (fun r => negb (h_sel f q r)).
+    match goal with |- context [Nat.eqb (length ?a) (length ?b)] => destruct (Nat.eqb (length a) (length b)) eqn:El end.
+    - apply Nat.eqb_eq in El.
+      assert (Hnone : @filter hrec (h_sel f q) (c_hreg st) = []) by (apply (filter_neg_all (h_sel f q)); exact El).
+      assert (Hall : @filter hrec (fun r => negb (h_sel f q r)) (c_hreg st) = c_hreg st) by (apply filter_length_eq; exact El).
+      rewrite Hnone, Hall. simp_out.
+      split; [exact I | split; [|split; [reflexivity | intros _; reflexivity]]].
+      repeat split; cbn; auto.
+    - apply Nat.eqb_neq in El.
+      assert (Hsome : @filter hrec (h_sel f q) (c_hreg st) <> []) by (apply (filter_neg_some (h_sel f q)); exact El).
+      rewrite (nonempty_true _ Hsome). simp_out.
+      split; [apply inv_set_adapters; auto; apply inv_a_unregH; apply (inv_A _ I)
+             | split; [|split; [reflexivity|]]].
+      + repeat split; cbn; auto.
+      + rewrite map_length, andb_true_r. intros Hb. apply negb_true_iff in Hb.
+        destruct (single_of_short _ Hsome Hb) as [e He].
+        unfold events_ok. simp_out. rewrite He.
+        assert (Hin : In e (filter (h_sel f q) (c_hreg st))) by (rewrite He; left; auto).
+        apply filter_In in Hin. destruct Hin as [_ Hsel].
+        destruct e as [[q' f'] i']. cbn in Hsel |- *.
+        rewrite (lspec_eqb_sym q q'), Hsel. reflexivity.
+  Qed.
+
+  Theorem step_ok st L o : inv st -> refines st L -> ok_op cls o = true -> step_claim st L o.
+  Proof.
+    intros I R Hok. destruct o; cbn in Hok.
+    - now apply step_regU.
+    - now apply step_unregU.
+    - now apply step_regA.
+    - now apply step_unregA.
+    - now apply step_regS.
+    - now apply step_unregS.
+    - now apply step_regH.
+    - now apply step_unregH.
+    - unfold step_claim. cbn. split; [apply inv_init | split; [apply refines_init | split; [reflexivity | intros _; reflexivity]]].
+  Qed.
+
+  (* ---- histories *)
+  Lemma reach_from ops : forall st L, inv st -> refines st L -> forallb (ok_op cls) ops = true ->
+    inv (fold_left (fun s o => st_of (cstep s o)) ops st)
+    /\ refines (fold_left (fun s o => st_of (cstep s o)) ops st)
+               (fold_left (fun L o => o_ledger (spec_step L o)) ops L).
+  Proof.
+    induction ops as [|o ops IH]; cbn; intros st L I R Hok; auto.
+    apply andb_true_iff in Hok. destruct Hok as [Ho Hops].
+    destruct (step_ok st L o I R Ho) as [I' [R' _]]. apply IH; auto.
+  Qed.
+
+  Theorem reach ops : forallb (ok_op cls) ops = true ->
+    inv (final W hashable ops) /\ refines (final W hashable ops) (ledger_of ops).
+  Proof. intros H. apply reach_from; auto using inv_init, refines_init. Qed.
+End Refinement.
+
+(* ================================================================== Part 6: the property lemmas *)
+Lemma ltb_length_existsb {A} (f : A -> bool) (l : list A) : Nat.ltb 0 (length (filter f l)) = existsb f l.
+Proof. induction l as [|x l IH]; cbn; auto. destruct (f x); cbn; auto. Qed.
+
+Lemma listing_u (U : ureg_t) :
+  map (fun kv => let '((p, n), (c, i, f)) := kv in RU p n c i f) U = map rec_u (map u_of U).
+Proof. rewrite map_map. apply map_ext. intros [[p n] [[c i] f]]. reflexivity. Qed.
+Lemma listing_a (A : areg_t) :
+  map (fun kv => let '((r, p, n), (f, i)) := kv in RA r p n f i) A = map rec_a (map a_of A).
+Proof. rewrite map_map. apply map_ext. intros [[[q p] n] [f i]]. reflexivity. Qed.
+
+Lemma util_regs_listing (U : ureg_t) : util_regs (map rec_u (map u_of U)) = map ukv U.
+Proof. unfold util_regs. induction U as [|[[p n] [[c i] f]] U IH]; cbn; auto. now rewrite IH. Qed.
+Lemma adapter_regs_listing (A : areg_t) : adapter_regs (map rec_a (map a_of A)) = vmap fst A.
+Proof. unfold adapter_regs, vmap. induction A as [|[[[q p] n] [f i]] A IH]; cbn; auto. f_equal. exact IH. Qed.
+Lemma util_has_listing (U : ureg_t) p c : util_has (map rec_u (map u_of U)) p c = Nat.ltb 0 (ucount U p c).
+Proof.
+  unfold ucount. rewrite ltb_length_existsb. unfold util_has.
+  induction U as [|[[p' n] [[c' i] f]] U IH]; cbn; auto. now rewrite IH.
+Qed.
+Lemma sub_facs_s (S : sreg_t) q p : sub_facs (map rec_s S) q (Some p) = map s_fac (filter (s_keyb q p) S).
+Proof.
+  unfold sub_facs. induction S as [|[[[q' p'] f] i] S IH]; cbn; auto.
+  destruct (lspec_eqb q' q && Nat.eqb p' p); cbn; now rewrite IH.
+Qed.
+Lemma sub_facs_h (H : hreg_t) q : sub_facs (map rec_h H) q None = map h_fac (filter (h_keyb q) H).
+Proof.
+  unfold sub_facs. induction H as [|[[q' f] i] H IH]; cbn; auto.
+  destruct (lspec_eqb q' q); cbn; now rewrite IH.
+Qed.
+
+Section PropertyLemmas.
+  Variable W : world.
+  Variable hashable : value -> bool.
+  Variable cls : nat -> nat.
+  Hypothesis hash_cls : forall a b, veq a = veq b -> hashable a = hashable b.
+  Notation okv := (okv cls).
+  Notation final := (final W hashable).
+  Notation cstep := (cstep W hashable).
+
+  Lemma listings_of st L : refines st L ->
+    registeredUtilities st = map rec_u (l_u L) /\ registeredAdapters st = map rec_a (l_a L) /\
+    registeredSubscriptionAdapters st = map rec_s (l_s L) /\ registeredHandlers st = map rec_h (l_h L).
+  Proof.
+    intros [Ru [Ra [Rs Rh]]].
+    unfold registeredUtilities, registeredAdapters, registeredSubscriptionAdapters, registeredHandlers.
+    rewrite Ru, Ra, Rs, Rh, listing_u, listing_a. repeat split.
+  Qed.
+
+  Theorem listings_exact_lemma ops : forallb (ok_op cls) ops = true ->
+    registeredUtilities (final ops) = map rec_u (l_u (ledger_of ops)) /\
+    registeredAdapters (final ops) = map rec_a (l_a (ledger_of ops)) /\
+    registeredSubscriptionAdapters (final ops) = map rec_s (l_s (ledger_of ops)) /\
+    registeredHandlers (final ops) = map rec_h (l_h (ledger_of ops)).
+  Proof. intros H. destruct (reach W hashable cls hash_cls ops H) as [_ R]. now apply listings_of. Qed.
+
+  Theorem registries_determined_lemma ops : forallb (ok_op cls) ops = true ->
+    let st := final ops in
+    adapters (c_utils st) = util_regs (registeredUtilities st)
+    /\ (forall k, (forall p, k <> ([], Some p)) -> sub_leaf (c_utils st) k = [])
+    /\ (forall p, nodupeq (sub_leaf (c_utils st) ([], Some p))
+                  /\ forall c, okv c = true ->
+                       existsb (fun x => v_eq x c) (sub_leaf (c_utils st) ([], Some p))
+                       = util_has (registeredUtilities st) p c)
+    /\ adapters (c_adapters st) = adapter_regs (registeredAdapters st)
+    /\ (forall q p, sub_leaf (c_adapters st) (q, Some p) = sub_facs (registeredSubscriptionAdapters st) q (Some p))
+    /\ (forall q, sub_leaf (c_adapters st) (q, None) = sub_facs (registeredHandlers st) q None).
+  Proof.
+    intros H st. destruct (reach W hashable cls hash_cls ops H) as [[IU IA] R]. fold st in IU, IA, R.
+    destruct (listings_of st _ R) as [Lu [La [Ls Lh]]]. destruct R as [Ru [Ra [Rs Rh]]].
+    rewrite Lu, La, Ls, Lh, Ru, Ra, Rs, Rh.
+    split; [rewrite util_regs_listing; apply (iu_adapters _ _ _ _ _ IU)|].
+    split; [apply (iu_other _ _ _ _ _ IU)|].
+    split; [intros p; split; [apply (iu_leaf_nodup _ _ _ _ _ IU p)|]|].
+    { intros c Hc. rewrite util_has_listing. apply (iu_leaf _ _ _ _ _ IU p c Hc). }
+    split; [rewrite adapter_regs_listing; apply (ia_adapters _ _ _ _ _ IA)|].
+    split; [intros q p; rewrite sub_facs_s; apply (ia_sleaf _ _ _ _ _ IA)|].
+    intros q. rewrite sub_facs_h. apply (ia_hleaf _ _ _ _ _ IA).
+  Qed.
+
+  (* the probe: every listed utility is registered and subscribed *)
+  Lemma probe_fold (u : reg) (U l : ureg_t) acc :
+    (forall kv, In kv l -> registered u [] (uprov kv) (uname kv) = Some (ucomp kv)
+                           /\ subscribed u [] (Some (uprov kv)) (ucomp kv) = true) ->
+    fold_left (fun acc kv =>
+                 let '(nr, dr, ns, ds) := acc in
+                 let '((p, n), (v, _, _)) := kv in
+                 let ok_reg := match registered u [] p n with Some v' => v_eq v' v | None => false end in
+                 let ok_sub := subscribed u [] (Some p) v in
+                 ((if ok_reg then nr else S nr), (if ok_reg then S dr else dr),
+                  (if ok_sub then ns else S ns), (if ok_sub then S ds else ds))) l acc
+    = let '(nr, dr, ns, ds) := acc in (nr, dr + length l, ns, ds + length l).
+  Proof.
+    revert acc. induction l as [|[[p n] [[v i] f]] l IH]; intros [[[nr dr] ns] ds] Hl; cbn [fold_left length].
+    - now rewrite !Nat.add_0_r.
+    - destruct (Hl ((p, n), (v, i, f)) (or_introl eq_refl)) as [H1 H2].
+      unfold uprov, uname, ucomp in H1, H2. cbn [fst snd] in H1, H2.
+      rewrite H1, H2, v_eq_refl. rewrite IH by (intros kv Hkv; apply Hl; right; auto).
+      rewrite <- !plus_n_Sm. reflexivity.
+  Qed.
+
+  Theorem probe_lemma ops : forallb (ok_op cls) ops = true ->
+    probe (final ops) = (0, length (registeredUtilities (final ops)), 0, length (registeredUtilities (final ops))).
+  Proof.
+    intros H. destruct (reach W hashable cls hash_cls ops H) as [[IU IA] R].
+    unfold probe, registeredUtilities. rewrite map_length.
+    rewrite (probe_fold (c_utils (final ops)) (c_ureg (final ops))); auto.
+    intros kv Hkv. split.
+    - unfold registered. cbn [map]. rewrite (iu_adapters _ _ _ _ _ IU).
+      destruct kv as [[p n] [[c i] f]]. unfold uprov, uname, ucomp. cbn [fst snd].
+      rewrite aget_ukv, (In_aget _ pn_eqb_eq _ _ _ (iu_keys _ _ _ _ _ IU) Hkv). reflexivity.
+    - unfold subscribed. cbn [map].
+      pose proof (iu_ok _ _ _ _ _ IU) as HU. unfold uok in HU. rewrite Forall_forall in HU.
+      pose proof (iu_leaf _ _ _ _ _ IU (uprov kv) (ucomp kv) (HU _ Hkv)) as Hl. unfold leaf in Hl.
+      rewrite Hl. apply Nat.ltb_lt. apply (ucount_pos _ kv); auto. apply v_eq_refl.
+  Qed.
+
+  Theorem events_partial_lemma ops o : forallb (ok_op cls) ops = true -> ok_op cls o = true ->
+    benign (ledger_of ops) o = true ->
+    events_ok (evs_of (cstep (final ops) o)) (spec_step (ledger_of ops) o) = true.
+  Proof.
+    intros H Ho Hb. destruct (reach W hashable cls hash_cls ops H) as [I R].
+    destruct (step_ok W hashable cls hash_cls _ _ o I R Ho) as [_ [_ [_ He]]]. auto.
+  Qed.
+
+  Theorem returns_lemma ops o : forallb (ok_op cls) ops = true -> ok_op cls o = true ->
+    ret_of (cstep (final ops) o) = o_ret (spec_step (ledger_of ops) o).
+  Proof.
+    intros H Ho. destruct (reach W hashable cls hash_cls ops H) as [I R].
+    destruct (step_ok W hashable cls hash_cls _ _ o I R Ho) as [_ [_ [Hr _]]]. auto.
+  Qed.
+
+  Lemma spec_unregister_ret L o : is_unregister o = true ->
+    o_ret (spec_step L o) = RTypeError \/ o_ret (spec_step L o) = RBool (nonempty (o_removed (spec_step L o))).
+  Proof.
+    destruct o; cbn [is_unregister]; try discriminate; intros _; cbn [spec_step].
+    - destruct (find _ _) as [[[[[p0 n0] oc] oi] of]|]; [destruct (match c with Some _ => _ | None => _ end)|]; cbn; auto.
+    - destruct (find _ _) as [[[[[q0 p0] n0] of] oi]|]; [destruct (f_sel f of)|]; cbn; auto.
+    - destruct (negb (Nat.eqb n 0)); cbn; auto. right. f_equal.
+      destruct (filter _ _); reflexivity.
+    - destruct (negb (Nat.eqb n 0)); cbn; auto. right. f_equal.
+      destruct (filter _ _); reflexivity.
+  Qed.
+
+  Theorem unregister_returns_lemma ops o : forallb (ok_op cls) ops = true -> ok_op cls o = true ->
+    is_unregister o = true ->
+    ret_of (cstep (final ops) o) = RTypeError
+    \/ ret_of (cstep (final ops) o) = RBool (nonempty (o_removed (spec_step (ledger_of ops) o))).
+  Proof. intros H Ho Hu. rewrite (returns_lemma ops o H Ho). now apply spec_unregister_ret. Qed.
+
+  Theorem replace_order_lemma ops c p n i f : forallb (ok_op cls) ops = true -> okv c = true ->
+    let st := final ops in
+    (forall oc oi of, In (RU p n oc oi of) (registeredUtilities st) ->
+       if v_eq oc c && Nat.eqb oi i
+       then cstep st (RegUtility c p n i f) = (st, RNone, [])
+       else evs_of (cstep st (RegUtility c p n i f))
+            = [Unregistered (RU p n oc oi of); Registered (RU p n c i f)])
+    /\ ((forall oc oi of, ~ In (RU p n oc oi of) (registeredUtilities st)) ->
+        evs_of (cstep st (RegUtility c p n i f)) = [Registered (RU p n c i f)]).
+  Proof.
+    intros H Hc st. destruct (reach W hashable cls hash_cls ops H) as [I R]. fold st in I, R.
+    assert (Hlist : forall oc oi of, In (RU p n oc oi of) (registeredUtilities st) <->
+                                      aget pn_eqb (c_ureg st) (p, n) = Some (oc, oi, of)).
+    { intros oc oi of. unfold registeredUtilities. split.
+      - intros Hin. apply in_map_iff in Hin. destruct Hin as [[[p' n'] [[c' i'] f']] [E Hin]].
+        injection E as -> -> -> -> ->.
+        apply (In_aget _ pn_eqb_eq); auto. apply (iu_keys _ _ _ _ _ (inv_U _ _ _ I)).
+      - intros Hget. apply (aget_In _ pn_eqb_eq) in Hget. apply in_map_iff.
+        exists ((p, n), (oc, oi, of)). auto. }
+    split.
+    - intros oc oi of Hin. apply Hlist in Hin. cbn [Components.cstep]. unfold registerUtility. rewrite Hin.
+      destruct (v_eq oc c && Nat.eqb oi i); [reflexivity|].
+      assert (Hoc : okv oc = true).
+      { pose proof (iu_ok _ _ _ _ _ (inv_U _ _ _ I)) as HU. unfold uok in HU. rewrite Forall_forall in HU.
+        apply (HU _ (aget_In _ pn_eqb_eq _ _ _ Hin)). }
+      unfold unregisterUtility. rewrite Hin, v_eq_refl. cbn [negb].
+      destruct (unreg_live W hashable cls hash_cls st _ p n oc oi of oc I R Hin Hoc (v_eq_refl oc))
+        as [st1 [E _]].
+      rewrite E. reflexivity.
+    - intros Hnone. cbn [Components.cstep]. unfold registerUtility.
+      destruct (aget pn_eqb (c_ureg st) (p, n)) as [[[oc oi] of]|] eqn:Hget; [|reflexivity].
+      exfalso. apply (Hnone oc oi of). now apply Hlist.
+  Qed.
+End PropertyLemmas.
+
+(* ================================================================== Part 7: computed witnesses *)
+Definition W0 : world := mkW (fun x => if Nat.eqb x 0 then [0] else [x; 0]) (fun _ => true).
+Definition hashable0 (v : value) : bool := negb (Nat.eqb (veq v) 5).
+Definition cls0 (i : nat) : nat := match i with 1 | 2 => 1 | 5 | 6 => 5 | _ => i end.
+
+Lemma hashable0_cls : forall a b, veq a = veq b -> hashable0 a = hashable0 b.
+Proof. intros a b E. unfold hashable0. now rewrite E. Qed.
+
+(* F9: the same subscription adapter registered twice, unregistered once: two registrations
+   removed, one event *)
+Definition f9_ops : list cop := [RegSub (mkV 1 1) [Some 1] 2 0 0; RegSub (mkV 1 1) [Some 1] 2 0 0].
+Definition f9_op : cop := UnregSub (Some (mkV 1 1)) [Some 1] 2 0.
+
+Lemma f9_witness :
+  forallb (ok_op cls0) f9_ops = true /\ ok_op cls0 f9_op = true /\
+  multi_removal (ledger_of f9_ops) f9_op = true /\
+  length (o_removed (spec_step (ledger_of f9_ops) f9_op)) = 2 /\
+  evs_of (cstep W0 hashable0 (final W0 hashable0 f9_ops) f9_op) = [Unregistered (RS [1] 2 (Some (mkV 1 1)) 0)] /\
+  events_ok (evs_of (cstep W0 hashable0 (final W0 hashable0 f9_ops) f9_op)) (spec_step (ledger_of f9_ops) f9_op) = false.
+Proof. vm_compute. repeat split. Qed.
+
+(* F11: registerAdapter over a live key: the displaced registration gets no Unregistered event *)
+Definition f11_ops : list cop := [RegAdapter (mkV 1 1) [Some 1] 2 0 0].
+Definition f11_op : cop := RegAdapter (mkV 3 3) [Some 1] 2 0 1.
+
+Lemma f11_witness :
+  forallb (ok_op cls0) f11_ops = true /\ ok_op cls0 f11_op = true /\
+  adapter_overwrite (ledger_of f11_ops) f11_op = true /\
+  o_removed (spec_step (ledger_of f11_ops) f11_op) = [RA [1] 2 0 (mkV 1 1) 0] /\
+  evs_of (cstep W0 hashable0 (final W0 hashable0 f11_ops) f11_op) = [Registered (RA [1] 2 0 (mkV 3 3) 1)] /\
+  events_ok (evs_of (cstep W0 hashable0 (final W0 hashable0 f11_ops) f11_op)) (spec_step (ledger_of f11_ops) f11_op) = false.
+Proof. vm_compute. repeat split. Qed.
+
+Theorem events_exact_refuted_lemma :
+  ~ (forall (W : world) (hashable : value -> bool) (cls : nat -> nat),
+       (forall a b, veq a = veq b -> hashable a = hashable b) ->
+       forall ops o, forallb (ok_op cls) ops = true -> ok_op cls o = true ->
+       events_ok (evs_of (cstep W hashable (final W hashable ops) o)) (spec_step (ledger_of ops) o) = true).
+Proof.
+  intros H. specialize (H W0 hashable0 cls0 hashable0_cls f9_ops f9_op eq_refl eq_refl).
+  destruct f9_witness as [_ [_ [_ [_ [_ E]]]]]. congruence.
+Qed.
+
+Theorem events_refuted_multi_lemma :
+  exists W hashable cls ops o,
+    (forall a b, veq a = veq b -> hashable a = hashable b) /\
+    forallb (ok_op cls) ops = true /\ ok_op cls o = true /\
+    multi_removal (ledger_of ops) o = true /\
+    events_ok (evs_of (cstep W hashable (final W hashable ops) o)) (spec_step (ledger_of ops) o) = false.
+Proof.
+  exists W0, hashable0, cls0, f9_ops, f9_op. split; [exact hashable0_cls|].
+  destruct f9_witness as [H1 [H2 [H3 [_ [_ H4]]]]]. auto.
+Qed.
+
+Theorem events_refuted_overwrite_lemma :
+  exists W hashable cls ops o,
+    (forall a b, veq a = veq b -> hashable a = hashable b) /\
+    forallb (ok_op cls) ops = true /\ ok_op cls o = true /\
+    adapter_overwrite (ledger_of ops) o = true /\
+    events_ok (evs_of (cstep W hashable (final W hashable ops) o)) (spec_step (ledger_of ops) o) = false.
+Proof.
+  exists W0, hashable0, cls0, f11_ops, f11_op. split; [exact hashable0_cls|].
+  destruct f11_witness as [H1 [H2 [H3 [_ [_ H4]]]]]. auto.
+Qed.
+
+(* a history that exercises the counting cache: equal and unhashable components under several
+   names, a replacement, removals; adapters, subscription adapters and handlers *)
+Definition ex_ops : list cop :=
+  [RegUtility (mkV 1 1) 3 0 0 None; RegUtility (mkV 2 1) 3 1 0 None; RegUtility (mkV 5 5) 3 2 1 (Some 7);
+   RegUtility (mkV 6 5) 3 0 0 None; UnregUtility (Some (mkV 1 1)) 3 1;
+   RegAdapter (mkV 3 3) [Some 1; None] 2 1 0; RegSub (mkV 4 4) [Some 1] 2 0 0; RegSub (mkV 3 3) [Some 1] 2 0 1;
+   RegHandler (mkV 4 4) [None] 0 0; UnregAdapter None [Some 1; None] 2 1].
+Definition ex_op : cop := UnregSub None [Some 1] 3 0.
+Definition ex_op2 : cop := UnregSub (Some (mkV 4 4)) [Some 1] 2 0.
